@@ -112,6 +112,8 @@ typedef struct vnaproperty_yaml {
 } vnaproperty_yaml_t;
 
 /* _vnaproperty_yaml_import: import properties from a YAML document */
+extern void _vnaproperty_free_tree(vnaproperty_t **rootptr);
+
 extern int _vnaproperty_yaml_import(vnaproperty_yaml_t *vymlp,
 	vnaproperty_t **rootptr, void *yaml_node);
 
